@@ -14,8 +14,15 @@ import (
 // ErrInjected is the error simulated devices return when a fault fires.
 var ErrInjected = errors.New("sim: injected I/O error")
 
-// ErrInjectedTransient is an injected error after which the device keeps working.
-var ErrInjectedTransient = errors.New("sim: injected transient I/O error")
+// ErrInjectedTransient is an injected error after which the device keeps working;
+// like a deadline error of package net it reports itself as temporary.
+var ErrInjectedTransient error = transientErr{}
+
+type transientErr struct{}
+
+func (transientErr) Error() string   { return "sim: injected transient I/O error" }
+func (transientErr) Temporary() bool { return true }
+func (transientErr) Timeout() bool   { return true }
 
 // ---------------------------------------------------------------------------
 // SimReader: delivery of a byte string to a consumer under a drawn schedule.
@@ -288,6 +295,13 @@ func (w *SimWriter) Write(p []byte) (int, error) {
 	if w.plan.FailAt >= 0 && len(w.Accepted)+len(p) > w.plan.FailAt {
 		if w.plan.Transient {
 			w.FailedOnce = true
+			if room := w.plan.FailAt - len(w.Accepted); w.plan.Short && room > 0 {
+				// a deadline firing in mid-write: part of the data was taken, the error says
+				// "temporary", and the device works again afterwards
+				w.Accepted = append(w.Accepted, p[:room]...)
+				w.c.Fault("write-short-transient")
+				return room, ErrInjectedTransient
+			}
 			w.c.Fault("write-error-transient")
 			return 0, ErrInjectedTransient
 		}
